@@ -8,6 +8,7 @@ import (
 
 	"github.com/mit-pdos/go-journal/common"
 	"github.com/mit-pdos/go-journal/jrnl"
+	"github.com/mit-pdos/go-nfsd/dir"
 	"github.com/mit-pdos/go-nfsd/inode"
 
 	"verifsim/simdisk"
@@ -316,8 +317,8 @@ func cacheCoherence(r *Rig) error {
 			return
 		}
 		dsk := inode.Decode(op.ReadBuf(st.Super.Inum2Addr(id), common.INODESZ*8), id)
-		if ip.String() != dsk.String() {
-			err = ferr("icache", "cached inode differs from the disk: cache {%s} disk {%s}", ip.String(), dsk.String())
+		if ip.String() != dsk.String() || ip.Atime != dsk.Atime || ip.Mtime != dsk.Mtime || ip.Nlink != dsk.Nlink {
+			err = ferr("icache", "cached inode differs from the disk: cache {%s atime %v mtime %v} disk {%s atime %v mtime %v}", ip.String(), ip.Atime, ip.Mtime, dsk.String(), dsk.Atime, dsk.Mtime)
 			return
 		}
 		if ip.Dcache != nil && uint32(dsk.Kind) == kDIR {
@@ -327,7 +328,7 @@ func cacheCoherence(r *Rig) error {
 				if err != nil {
 					return
 				}
-				raw, ok := readFileBytes(r, op, dsk, d.Off, 128)
+				raw, ok := readFileBytes(r, op, dsk, d.Off, dir.DIRENTSZ)
 				if !ok {
 					err = ferr("dcache", "directory inode %d: cached entry %q at offset %d is beyond the on-disk directory", id, name, d.Off)
 					return
@@ -342,8 +343,8 @@ func cacheCoherence(r *Rig) error {
 			}
 			// every live on-disk entry is in the cache
 			live := 0
-			for off := uint64(0); off < dsk.Size; off += 128 {
-				raw, ok := readFileBytes(r, op, dsk, off, 128)
+			for off := uint64(0); off < dsk.Size; off += dir.DIRENTSZ {
+				raw, ok := readFileBytes(r, op, dsk, off, dir.DIRENTSZ)
 				if !ok {
 					continue
 				}
@@ -938,6 +939,12 @@ func describeIn(in *In) string {
 	case "setattr":
 		if in.SetSz {
 			s += fmt.Sprintf(" size=%d", in.Size)
+		}
+		if in.SetTm || in.SetAt {
+			s += " atime"
+		}
+		if in.SetTm || in.SetMt {
+			s += " mtime"
 		}
 	}
 	return s
